@@ -20,7 +20,9 @@ class Variable(CFGObject):  # pylint: disable=too-few-public-methods
 
     def __eq__(self, other):
         if isinstance(other, CFGObject):
-            return self._value == other.value
+            # A terminal (or epsilon) with the same value is another symbol
+            return isinstance(other, Variable) and \
+                self._value == other.value
         return self._value == other
 
     def __str__(self):
